@@ -607,6 +607,89 @@ func genShape(repo string) (*leanFile, error) {
 	lf.pf("def connCloseCollectsAll : Bool := %v\n", byRange && !otherMapUse)
 	lf.pf("def connCloseClosesEach : Bool := %v\n", closesEach)
 	lf.pf("def connCloseCancelsAndClosesTransport : Bool := %v\n", cancels && closesTransport)
+	// error branches of the packet writes: `if err := ….sendPacket(…); err != nil { … }` (or the assignment in
+	// the statement before the if)
+	sendErrBranches := func(fn *ast.FuncDecl) []*ast.IfStmt {
+		var out []*ast.IfStmt
+		if fn == nil {
+			return out
+		}
+		callsSend := func(n ast.Node) bool {
+			found := false
+			if n == nil {
+				return false
+			}
+			ast.Inspect(n, func(m ast.Node) bool {
+				if ce, ok := m.(*ast.CallExpr); ok && strings.HasSuffix(exprStr(ce.Fun), ".sendPacket") {
+					found = true
+				}
+				return true
+			})
+			return found
+		}
+		var walk func(list []ast.Stmt)
+		walk = func(list []ast.Stmt) {
+			for i, st := range list {
+				if ifs, ok := st.(*ast.IfStmt); ok && exprStr(ifs.Cond) == "err != nil" {
+					if (ifs.Init != nil && callsSend(ifs.Init)) || (i > 0 && callsSend(list[i-1])) {
+						out = append(out, ifs)
+					}
+				}
+			}
+		}
+		ast.Inspect(fn.Body, func(n ast.Node) bool {
+			switch b := n.(type) {
+			case *ast.BlockStmt:
+				walk(b.List)
+			case *ast.CommClause:
+				walk(b.Body)
+			case *ast.CaseClause:
+				walk(b.Body)
+			}
+			return true
+		})
+		return out
+	}
+	hasReturn := func(n ast.Node) bool {
+		found := false
+		ast.Inspect(n, func(m ast.Node) bool {
+			if _, ok := m.(*ast.FuncLit); ok {
+				return false
+			}
+			if _, ok := m.(*ast.ReturnStmt); ok {
+				found = true
+			}
+			return true
+		})
+		return found
+	}
+	// sendPackets: every failed packet write ends the call with an error (the last statement of the error
+	// branch is a return of something other than nil)
+	spBranches := sendErrBranches(sp)
+	returnsFirst := len(spBranches) > 0
+	for _, ifs := range spBranches {
+		n := len(ifs.Body.List)
+		if n == 0 {
+			returnsFirst = false
+			continue
+		}
+		r, ok := ifs.Body.List[n-1].(*ast.ReturnStmt)
+		if !ok || len(r.Results) == 0 || exprStr(r.Results[len(r.Results)-1]) == "nil" {
+			returnsFirst = false
+		}
+	}
+	lf.pf("/-- `sendPackets` returns an error at the first packet write that fails (nothing is written after it) -/\n")
+	lf.pf("def sendPacketsReturnsFirstError : Bool := %v\n", returnsFirst)
+	// Close: a failed write of the teardown packet does not end Close — the client-side teardown follows
+	clBranches := sendErrBranches(cl)
+	tearsDown := len(clBranches) > 0
+	for _, ifs := range clBranches {
+		if hasReturn(ifs.Body) {
+			tearsDown = false
+		}
+	}
+	lf.pf("/-- `Channel.Close` goes on with the client-side teardown when the write of the teardown packet fails -/\n")
+	lf.pf("def closeTearsDownAfterWriteError : Bool := %v\n", tearsDown)
 	lf.pf("\nend Dblib.Gen.Shape\n")
 	return lf, nil
 }
